@@ -50,6 +50,27 @@ impl FixtureDatabase {
                         return true;
                     }
                 }
+                // `x = yield value`, `x: T = yield value`, `x += yield value`, `return (yield)`
+                Stmt::Assign(assign) => {
+                    if let Expr::Yield(_) | Expr::YieldFrom(_) = &*assign.value {
+                        return true;
+                    }
+                }
+                Stmt::AnnAssign(ann_assign) => {
+                    if let Some(Expr::Yield(_) | Expr::YieldFrom(_)) = ann_assign.value.as_deref() {
+                        return true;
+                    }
+                }
+                Stmt::AugAssign(aug_assign) => {
+                    if let Expr::Yield(_) | Expr::YieldFrom(_) = &*aug_assign.value {
+                        return true;
+                    }
+                }
+                Stmt::Return(ret) => {
+                    if let Some(Expr::Yield(_) | Expr::YieldFrom(_)) = ret.value.as_deref() {
+                        return true;
+                    }
+                }
                 Stmt::If(if_stmt) => {
                     if self.contains_yield(&if_stmt.body) || self.contains_yield(&if_stmt.orelse) {
                         return true;
@@ -68,7 +89,18 @@ impl FixtureDatabase {
                         return true;
                     }
                 }
+                Stmt::AsyncFor(for_stmt) => {
+                    if self.contains_yield(&for_stmt.body) || self.contains_yield(&for_stmt.orelse)
+                    {
+                        return true;
+                    }
+                }
                 Stmt::With(with_stmt) => {
+                    if self.contains_yield(&with_stmt.body) {
+                        return true;
+                    }
+                }
+                Stmt::AsyncWith(with_stmt) => {
                     if self.contains_yield(&with_stmt.body) {
                         return true;
                     }
@@ -77,6 +109,10 @@ impl FixtureDatabase {
                     if self.contains_yield(&try_stmt.body)
                         || self.contains_yield(&try_stmt.orelse)
                         || self.contains_yield(&try_stmt.finalbody)
+                        || try_stmt.handlers.iter().any(|handler| {
+                            let rustpython_parser::ast::ExceptHandler::ExceptHandler(h) = handler;
+                            self.contains_yield(&h.body)
+                        })
                     {
                         return true;
                     }
@@ -135,9 +171,12 @@ impl FixtureDatabase {
                     .collect();
                 elements.join(", ")
             }
-            Expr::Constant(constant) => {
-                format!("{:?}", constant.value)
-            }
+            Expr::Constant(constant) => match &constant.value {
+                // String forward reference (`-> "Foo"`): show the referenced type
+                rustpython_parser::ast::Constant::Str(s) => s.to_string(),
+                rustpython_parser::ast::Constant::None => "None".to_string(),
+                other => format!("{:?}", other),
+            },
             Expr::BinOp(binop) if matches!(binop.op, rustpython_parser::ast::Operator::BitOr) => {
                 format!(
                     "{} | {}",
